@@ -90,6 +90,13 @@ def make_policy_module(pol):
         def manylinux_compatible(major, minor, arch):
             return rules.get((major, minor, arch), default)
         m.manylinux_compatible = manylinux_compatible
+        # a module that defines the PEP 600 hook may *also* carry (stale) legacy attributes: they must not be
+        # consulted (the hook's answer, None included, is final).  The model's `func` policy has no such
+        # attributes, so the correspondence checks exactly that.
+        for k, attr in (("m1", "manylinux1_compatible"), ("m2010", "manylinux2010_compatible"),
+                        ("m2014", "manylinux2014_compatible")):
+            if pol.get(k) is not None:
+                setattr(m, attr, pol[k])
     elif pol["kind"] == "legacy":
         for k, attr in (("m1", "manylinux1_compatible"), ("m2010", "manylinux2010_compatible"),
                         ("m2014", "manylinux2014_compatible")):
